@@ -23,12 +23,14 @@ type histOp struct {
 	Key    string
 	Val    string
 	Ver    string // input version (cas)
+	Short  bool   // the write carries a short expiry (it is gone by the next tick)
 	Out    outcome
 	Call   int64
 	Ret    int64
 }
 
 type taskState struct {
+	short     bool // the current operation writes with a short expiry
 	scribbleT []*time.Time
 	scribble  [][]byte // value buffers this caller overwrites after its current operation
 	name      string
@@ -103,6 +105,8 @@ type world struct {
 	opStart       map[string]time.Time // task -> start of its current operation
 	opStall0      map[string]time.Duration
 	srvErr        [][2]time.Time  // periods in which the Redis server answered with errors
+	ticks         [][2]int64      // [call, return] stamps of tick markers (conc)
+	netFaults     bool            // the fault plan loses messages (Redis transport)
 	scribble      [][]byte        // value buffers the caller overwrites after the current operation
 	lastFar       map[string]bool // the last successful write of the key carried no or a far expiry
 	byTask        map[string]*taskState
@@ -135,6 +139,11 @@ func (w *world) Setup(e *sim.Env) {
 	}
 	if g := w.c.Knob("grace_ms", 0); g > 0 {
 		grace = time.Duration(g) * time.Millisecond
+	}
+	for _, f := range w.c.Faults {
+		if f.Seam == "net" {
+			w.netFaults = true
+		}
 	}
 	w.m = newModel(grace)
 	w.m.OwnStall = func() time.Duration { return zsimrt.StalledNs() - w.opStall0[zsimrt.CurrentName()] }
@@ -454,6 +463,7 @@ func (w *world) doOp(ctx context.Context, ts *taskState, op sim.Op, i int) {
 	}
 	w.opStart[ts.name] = time.Now()
 	w.opStall0[ts.name] = zsimrt.StalledNs()
+	ts.short = op.D > 0 && op.D < int64(time.Minute)
 	if ts.name == "s0" && w.c.Knob("exp_phase", 0) == 1 {
 		for j, k := range split(op.S) {
 			exp := op.D > 0 && op.D < int64(time.Minute)
@@ -492,6 +502,14 @@ func (w *world) doOp(ctx context.Context, ts *taskState, op sim.Op, i int) {
 	}
 	switch op.K {
 	case "nop":
+		return
+	case "tick":
+		// a marker in the concurrent history: every short-lived record written before it has
+		// expired by the time it ends (mode conc, programs in two phases)
+		c0 := e.Stamp()
+		zsimrt.Sleep("task:tick", time.Millisecond)
+		w.ticks = append(w.ticks, [2]int64{c0, e.Stamp()})
+		e.Logf("%s tick", ts.name)
 		return
 	case "jump":
 		zsimrt.Sleep("task:jump", time.Duration(op.D))
@@ -657,7 +675,9 @@ func (w *world) doOp(ctx context.Context, ts *taskState, op sim.Op, i int) {
 			w.shadow(func(m *model) string { oo := o; return m.applyPutMany(nrms(keys), vals, exps, &oo) })
 		}
 		if conc {
+			all := ts.short
 			for j, k := range keys {
+				ts.short = all && exps[j] != nil
 				w.record(ts, "putmany", k, vals[j], "", o, call)
 			}
 		}
@@ -816,6 +836,11 @@ func (w *world) doOp(ctx context.Context, ts *taskState, op sim.Op, i int) {
 	cv.register(&o)
 	w.reuseBuffers(ts)
 	e.Logf("%s %s -> %s", ts.name, w.canon(op.String()), w.canon(o.String()))
+	if strings.HasPrefix(o.Err, "other:") && w.netFaults && w.mode == "conc" {
+		// a message of this run was lost and a connection broke: the storage passes the error on
+		e.Probe("call_failed_by_broken_connection")
+		return
+	}
 	if strings.HasPrefix(o.Err, "other:") && (w.srvErrDuring(t0, time.Now()) || (len(w.srvErr) > 0 && strings.Contains(o.Err, "ERR injected"))) {
 		// (a reply of the refusing server may also reach a later call on the same connection:
 		// a pipeline that was cut short leaves its remaining replies behind)
@@ -959,6 +984,10 @@ func (w *world) record(ts *taskState, kind, key, val, ver string, o outcome, cal
 	}
 	if ts.name == "s0" && w.c.Knob("exp_phase", 0) == 1 {
 		// sequential setup phase: it only defines the state the concurrent phase starts from
+		if strings.HasPrefix(o.Err, "other:") && w.netFaults {
+			w.skipKey[key] = true // a set-up write of unknown outcome: the start state of the key is not known
+			return
+		}
 		st := w.initState[key]
 		if o.Ver != "" {
 			st.used = usedAdd(st.used, o.Ver)
@@ -999,7 +1028,18 @@ func (w *world) record(ts *taskState, kind, key, val, ver string, o outcome, cal
 			w.allVers[o.Ver] = what
 		}
 	}
-	w.hist = append(w.hist, histOp{Client: ts.idx, Kind: kind, Key: key, Val: val, Ver: ver, Out: o, Call: call, Ret: w.e.Stamp()})
+	ret := w.e.Stamp()
+	if strings.HasPrefix(o.Err, "other:") && w.netFaults {
+		// the connection broke during the call: a read told nothing; a write may or may not have
+		// taken effect, at any moment from its invocation on, with a version nobody has seen
+		if kind == "get" {
+			return
+		}
+		o = outcome{Err: "maybe"}
+		ret = 1 << 60
+		w.e.Probe("write_with_unknown_outcome")
+	}
+	w.hist = append(w.hist, histOp{Client: ts.idx, Kind: kind, Key: key, Val: val, Ver: ver, Short: ts.short && kind != "get" && kind != "del", Out: o, Call: call, Ret: ret})
 }
 
 // ---------------------------------------------------------------------------
